@@ -37,6 +37,8 @@ type c17In struct {
 	Wrapped bool     `json:"wrapped,omitempty"`
 	// RootOnly: the input document's only top-level key is literally "root" (and the table is read from it)
 	RootOnly bool `json:"root_only,omitempty"`
+	// RootObj: the input document is {"root": {"t": rows}} — its only key is "root" and holds an OBJECT
+	RootObj bool `json:"root_obj,omitempty"`
 }
 
 type propC17 struct{}
@@ -560,7 +562,11 @@ func c17MetaDocOn(r *Rand, wrapped bool, tbl string) []c17Seg {
 	if wrapped {
 		doc = append(doc, c17Seg{K: Pick(r, []string{"raw", "dq", "bt"}), S: "root"}, c17Seg{K: "raw", S: "."})
 	}
-	doc = append(doc, c17Seg{K: Pick(r, []string{"raw", "dq", "bt"}), S: tbl})
+	tk := Pick(r, []string{"raw", "dq", "bt"})
+	if strings.Contains(tbl, ".") {
+		tk = "bt" // a path as one quoted name
+	}
+	doc = append(doc, c17Seg{K: tk, S: tbl})
 	if r.Chance(30) {
 		doc = append(doc, c17Seg{K: "raw", S: " WHERE b = "}, c17Seg{K: "sq", S: Pick(r, []string{"x", "y [z]", "[", "\\'"})})
 	}
@@ -624,6 +630,21 @@ func (propC17) Generate(r *Rand, tier string) []Case {
 			}
 		}
 	}
+	// (2d) many bracket pairs (more than 64) inside one open bracket: a matrix literal
+	for _, rows := range []int{63, 64, 65, 70, 130} {
+		doc := []c17Seg{{K: "raw", S: "SELECT "}, {K: "open"}}
+		for i := 0; i < rows; i++ {
+			if i > 0 {
+				doc = append(doc, c17Seg{K: "raw", S: ", "})
+			}
+			doc = append(doc, c17Seg{K: "open"}, c17Seg{K: "raw", S: fmt.Sprintf("%d, %d", i, i+1)}, c17Seg{K: "close"})
+		}
+		doc = append(doc, c17Seg{K: "close"}, c17Seg{K: "raw", S: " AS m FROM "}, c17Seg{K: "raw", S: "t"})
+		for _, q := range []string{"pg", "my"} {
+			add(c17In{Kind: "doc", Q: q, Doc: doc}, "stream:probe-many-brackets")
+		}
+		add(c17In{Kind: "meta", Doc: doc, Idiom: true}, "stream:meta", "data:many-brackets")
+	}
 	// (3) random documents
 	for i := 0; i < 500*mul; i++ {
 		add(c17In{Kind: "doc", Q: Pick(r, []string{"pg", "pg", "my"}), Doc: c17GenDoc(r)}, "stream:doc")
@@ -653,6 +674,10 @@ func (propC17) Generate(r *Rand, tier string) []Case {
 					if r.Chance(12) {
 						// an input whose only top-level key is "root": Wrapped() must still wrap it
 						add(c17In{Kind: "meta", Doc: c17MetaDocOn(r, w == 1, "root"), Wrapped: w == 1, Pg: p == 1, Idiom: a == 1, RootOnly: true}, "stream:meta", "data:root-only")
+					}
+					if r.Chance(12) {
+						// ... and one whose only key "root" holds an object: Wrapped() wraps that too (root.root.t)
+						add(c17In{Kind: "meta", Doc: c17MetaDocOn(r, w == 1, "root.t"), Wrapped: w == 1, Pg: p == 1, Idiom: a == 1, RootObj: true}, "stream:meta", "data:root-object-only")
 					}
 				}
 			}
@@ -858,6 +883,10 @@ func (propC17) Observe(raw json.RawMessage) (Observed, error) {
 		if in.RootOnly {
 			dataA = map[string]any{"root": deepCopy(c17Data["t"])}
 			dataB = map[string]any{"root": deepCopy(c17Data["t"])}
+		}
+		if in.RootObj {
+			dataA = map[string]any{"root": deepCopy(c17Data)}
+			dataB = map[string]any{"root": deepCopy(c17Data)}
 		}
 		if in.Wrapped {
 			dataB = map[string]any{"root": dataB}
